@@ -1,9 +1,183 @@
-import MV.Spec.AStar
-import MV.Spec.Geometry
-/-! C20 — property theorems (work in progress) -/
-namespace MV.Props.C20
-open MV.Model.AStar
+import MV.Lemmas.AStarOpt
+import MV.Lemmas.GoHeap
+/-!
+# C20 — path finding returns valid shortest paths; geometric predicates match geometry
 
-theorem C20_pathCost_single (c : Nat → Nat → Nat) (a : Nat) : pathCost c [a] = 0 := rfl
+## `astar.Find` (toolkit/navigate/astar)
+
+All statements are about `MV.Model.AStar.find`, the transcription the oracle executes (Go's
+`container/heap` included), for *every* finite graph, start, goal and heuristic.
+
+* `C20_astar_sound` — a returned path starts at the start, ends at the goal and follows graph
+  edges (`ValidPath`; the reported cost is `pathCost` of that list by definition of the output).
+* `C20_astar_complete` — on a well-formed graph with `n` nodes the loop never needs more than
+  `fuelBound G + 1 = 2 + Σ_v deg v` iterations, and `none` is returned exactly when the goal is
+  unreachable.
+* `C20_astar_optimal` — for a consistent heuristic (`h u ≤ cost u v + h v` on every edge; no
+  admissibility or `h goal = 0` is needed) the returned path is a cheapest walk.
+* `C20_optCost_shortest` — the reference value the judge uses (search with the zero heuristic) is
+  the true minimum; `C20_judgeFind_ok` spells out what an `ok` verdict means.
+-/
+namespace MV.Props.C20
+open MV.Model.AStar MV.Spec.AStar MV.Lemmas.AStar MV.Lemmas.GoHeap
+
+theorem C20_validPathB_iff (G : Graph) (s g : Nat) (p : Path) :
+    validPathB G s g p = true ↔ ValidPath G s g p := validPathB_iff G s g p
+
+/-- list walks and the inductive `Reach` describe the same thing -/
+theorem C20_reach_iff_validPath (G : Graph) (s g c : Nat) :
+    Reach G s g c ↔ ∃ p, ValidPath G s g p ∧ pathCost G.cost p = c := by
+  constructor
+  · intro h
+    obtain ⟨p, hh, hne, hl, hw, hc⟩ := walk_of_reach G s h
+    exact ⟨p, ⟨hh, by rw [getLast?_eq_some_last p hne, hl], hw⟩, hc⟩
+  · rintro ⟨p, ⟨hh, hl, hw⟩, hc⟩
+    have hne : p ≠ [] := by intro h; subst h; simp at hh
+    have := reach_of_walk G s p hh hw
+    rw [getLast?_eq_some_last p hne] at hl
+    injection hl with hl
+    rwa [hl, hc] at this
+
+theorem C20_astar_sound (G : Graph) (s g : Nat) (h : Nat → Nat) (p : Path)
+    (hf : find G s g h = .found p) : ValidPath G s g p :=
+  loop_found_sound goHeapLawful G s g h _ _ _ p (invB_init goHeapLawful G s g) hf
+
+/-- the cost printed next to the path is the sum of the edge costs along it, and it is the cost of a walk -/
+theorem C20_astar_cost (G : Graph) (s g : Nat) (h : Nat → Nat) (p : Path)
+    (hf : find G s g h = .found p) : Reach G s g (pathCost G.cost p) :=
+  (C20_reach_iff_validPath G s g _).2 ⟨p, C20_astar_sound G s g h p hf, rfl⟩
+
+theorem C20_astar_fuel (G : Graph) (hwf : WF G) (s g : Nat) (hs : s < G.n) (h : Nat → Nat) :
+    find G s g h ≠ .outOfFuel := by
+  have L := goHeapLawful
+  have hp := L.push_perm goHeap.empty { key := 0, path := [s] } L.inv_empty
+  rw [L.elems_empty] at hp
+  apply loop_fuel L G g h hwf _ _ _ (L.push_inv _ _ L.inv_empty)
+  · intro e he
+    rw [hp.mem_iff] at he
+    have he' : e = { key := 0, path := [s] } := by simpa using he
+    subst he'; exact hs
+  · rw [hp.length_eq, openDeg_nil]; simp [fuelBound]
+
+theorem C20_astar_complete (G : Graph) (hwf : WF G) (s g : Nat) (hs : s < G.n) (h : Nat → Nat) :
+    (find G s g h = .notFound ↔ ¬ Reachable G s g) ∧ find G s g h ≠ .outOfFuel := by
+  refine ⟨⟨?_, ?_⟩, C20_astar_fuel G hwf s g hs h⟩
+  · exact loop_notFound_unreachable goHeapLawful G s g h _ _ _ (invB_init goHeapLawful G s g)
+  · intro hun
+    cases hr : find G s g h with
+    | notFound => rfl
+    | outOfFuel => exact absurd hr (C20_astar_fuel G hwf s g hs h)
+    | found p => exact absurd ⟨_, C20_astar_cost G s g h p hr⟩ hun
+
+theorem C20_astar_optimal (G : Graph) (hwf : WF G) (s g : Nat) (hs : s < G.n) (h : Nat → Nat)
+    (hcons : Consistent G h) (p : Path) (hf : find G s g h = .found p) :
+    Shortest G s g (pathCost G.cost p) :=
+  ⟨C20_astar_cost G s g h p hf,
+   loop_found_optimal goHeapLawful G s g h hwf hs hcons _ _ _ p
+     (invB_init goHeapLawful G s g) (invO_init goHeapLawful G s h) hf⟩
+
+theorem C20_consistentB_iff (G : Graph) (h : Nat → Nat) : consistentB G h = true ↔ Consistent G h := by
+  simp [consistentB, Consistent]
+
+theorem C20_wfB_iff (G : Graph) : wfB G = true ↔ WF G := by
+  simp [wfB, WF]
+
+/-- the judge's reference value: the search with the zero heuristic computes the true minimum -/
+theorem C20_optCost_shortest (G : Graph) (hwf : WF G) (s g : Nat) (hs : s < G.n) :
+    (∀ c, optCost G s g = some c → Shortest G s g c) ∧ (optCost G s g = none ↔ ¬ Reachable G s g) := by
+  have hz : Consistent G (fun _ => 0) := by intro u _ v _; simp
+  constructor
+  · intro c hc
+    unfold optCost at hc
+    cases hr : find G s g (fun _ => 0) with
+    | found p =>
+      rw [hr] at hc; simp at hc; subst hc
+      exact C20_astar_optimal G hwf s g hs _ hz p hr
+    | notFound => rw [hr] at hc; simp at hc
+    | outOfFuel => rw [hr] at hc; simp at hc
+  · unfold optCost
+    cases hr : find G s g (fun _ => 0) with
+    | found p =>
+      simp
+      exact ⟨_, C20_astar_cost G s g _ p hr⟩
+    | notFound =>
+      simp
+      exact ((C20_astar_complete G hwf s g hs _).1.1 hr)
+    | outOfFuel => exact absurd hr (C20_astar_fuel G hwf s g hs _)
+
+/-- what the verdict `ok` of the judge means for the implementation's answer -/
+theorem C20_judgeFind_ok (G : Graph) (hwf : WF G) (s g : Nat) (hs : s < G.n) (h : Nat → Nat)
+    (out : Option (Nat × Path)) (hok : judgeFind G s g h out = "ok") :
+    match out with
+    | none => ¬ Reachable G s g
+    | some (c, p) => ValidPath G s g p ∧ pathCost G.cost p = c ∧ (Consistent G h → Shortest G s g c) := by
+  have hopt := C20_optCost_shortest G hwf s g hs
+  unfold judgeFind at hok
+  cases out with
+  | none =>
+    cases ho : optCost G s g with
+    | none => exact hopt.2.1 ho
+    | some o => rw [ho] at hok; simp at hok
+  | some cp =>
+    obtain ⟨c, p⟩ := cp
+    simp only at hok ⊢
+    by_cases hv : validPathB G s g p = true
+    · simp only [hv, Bool.not_true, Bool.false_eq_true, if_false] at hok
+      by_cases hc : pathCost G.cost p = c
+      · simp only [hc, ne_eq, not_true_eq_false, if_false] at hok
+        refine ⟨(validPathB_iff G s g p).1 hv, hc, ?_⟩
+        intro hcons
+        cases ho : optCost G s g with
+        | none => rw [ho] at hok; simp at hok
+        | some o =>
+          rw [ho] at hok
+          simp only at hok
+          have hsh := hopt.1 o ho
+          have hreach : Reach G s g c := hc ▸ (C20_reach_iff_validPath G s g _).2 ⟨p, (validPathB_iff G s g p).1 hv, rfl⟩
+          by_cases hlt : c < o
+          · simp [hlt] at hok
+          · simp only [hlt, if_false, (C20_consistentB_iff G h).2 hcons, Bool.true_and] at hok
+            by_cases hne : c = o
+            · subst hne; exact hsh
+            · simp [hne] at hok
+      · simp [hc] at hok
+    · simp [hv] at hok
+
+/-! ### non-vacuity -/
+
+/-- a 4-node diamond: 0→1 (1), 0→2 (4), 1→2 (1), 2→3 (1); node 3 has no way back -/
+def demo : Graph where
+  n := 4
+  nbrs v := if v = 0 then [1, 2] else if v = 1 then [2] else if v = 2 then [3] else []
+  cost u v := if u = 0 ∧ v = 2 then 4 else 1
+
+theorem demo_wf : WF demo := (C20_wfB_iff demo).1 (by decide)
+
+theorem demo_reach : Reach demo 0 3 3 :=
+  Reach.step (Reach.step (Reach.step Reach.base (x := 1) (by decide)) (x := 2) (by decide)) (x := 3) (by decide)
+
+/-- the hypotheses of the three theorems are satisfiable and give a concrete conclusion: on the
+    diamond the search finds a valid path from 0 to 3 of cost at most 3 (the detour over the
+    expensive edge costs 5), and reports "no path" from 3 to 0 -/
+example : ∃ p, find demo 0 3 (fun _ => 0) = .found p ∧ ValidPath demo 0 3 p ∧ pathCost demo.cost p ≤ 3 := by
+  have hc := C20_astar_complete demo demo_wf 0 3 (by decide) (fun _ => 0)
+  cases hr : find demo 0 3 (fun _ => 0) with
+  | notFound => exact absurd ⟨3, demo_reach⟩ (hc.1.1 hr)
+  | outOfFuel => exact absurd hr hc.2
+  | found p =>
+    refine ⟨p, rfl, C20_astar_sound demo 0 3 _ p hr, ?_⟩
+    have hz : Consistent demo (fun _ => 0) := by intro u _ v _; simp
+    exact (C20_astar_optimal demo demo_wf 0 3 (by decide) _ hz p hr).2 3 demo_reach
+
+example : find demo 3 0 (fun _ => 0) = .notFound := by
+  refine (C20_astar_complete demo demo_wf 3 0 (by decide) _).1.2 ?_
+  rintro ⟨c, hr⟩
+  -- nothing leaves node 3
+  have : ∀ y c, Reach demo 3 y c → y = 3 := by
+    intro y c h
+    induction h with
+    | base => rfl
+    | step _ hx ih => subst ih; simp [demo] at hx
+  exact absurd (this 0 c hr) (by decide)
 
 end MV.Props.C20
